@@ -32,6 +32,13 @@ Theorem C42_sanitized_valid_nonkeyword :
   forall rs, go_identifier u_letter u_digit (go_sanitized_runes u_letter u_digit rs) = true.
 Proof. exact sanitized_valid_nonkeyword. Qed.
 Print Assumptions C42_sanitized_valid_nonkeyword.
+(* the same on strings: for every byte string s (valid UTF-8 or not), ranging over
+   GoSanitized(s) yields a Go identifier *)
+Theorem C42_sanitized_valid_nonkeyword_bytes :
+  forall (u_letter u_digit : N -> bool), u_letter rune_error = false ->
+  forall s, go_identifier u_letter u_digit (decode_runes (go_sanitized u_letter u_digit s)) = true.
+Proof. exact sanitized_valid_nonkeyword_bytes. Qed.
+Print Assumptions C42_sanitized_valid_nonkeyword_bytes.
 Example C42_sanitized_nonvacuous :
   tbl_letter [] rune_error = false /\
   go_sanitized_tbl [] [ "g"; "o" ]%byte = [ "_"; "g"; "o" ]%byte /\
